@@ -12,6 +12,7 @@ Model: Core/Filtering.lean (FilterState bitmap, Filtered, Layered veto, per-span
 interest caching through pick_interest, for stacks registry().with(n₀.and_then(n₁)…)).
 -/
 import TracingModel.Lemmas.Filtering
+import TracingModel.Core.Lookup
 
 namespace C07
 open TM.Filtering TM.FilterExpr TM.Directive TM.FilteringLemmas
@@ -427,5 +428,126 @@ theorem probe_witness :
     let s1 := (probe st TState.init trace 0).1
     shouldReceive st warn 0 = [1, 2] ∧ (emitEvent st TState.init warn 0).2 = [1, 2] ∧
     (emitEvent st s1 warn 0).2 = [1] := by decide
+
+/-! ### what a layer is shown when it looks spans up -/
+
+open TM.Lookup in
+/-- **C07.span_map_spec** — the `FilterMap` the registry stores with a span created from a clean
+bitmap has exactly the bits of the per-layer filters that REJECTED the span (whatever the cached
+interest was) -/
+theorem span_map_spec (st : Stack) (hne : st ≠ []) (hwf : WF st) (hh : HonestStack st)
+    (s : TState) (hs : s.bits = Bits.clean) (k : Nat) (m : Meta) (c : Ctx) (map : Bits)
+    (hnew : s.spans.lookup k = none) (hl : (emitSpan st s k m c).1.spans.lookup k = some map) :
+    ∀ fid f n, Node.filt fid f n ∈ st → (isDisabled map fid = true ↔ enabledF f m c = false) := by
+  obtain ⟨_, in2⟩ := interest_sound st hne hh m
+  obtain ⟨p1, _⟩ := pass_and_deliver st hwf m c
+  intro fid f n hm
+  unfold emitSpan at hl
+  cases hi : stackInterest st m with
+  | never => simp only [hi] at hl; rw [hnew] at hl; cases hl
+  | always =>
+    simp only [hi, if_true, hs, List.lookup_cons_self, Option.some.injEq] at hl
+    subst hl
+    have := (in2 hi c).2 fid f n hm
+    simp [isDisabled, Bits.clean, this]
+  | sometimes =>
+    simp only [hi, hs] at hl
+    have hne' : (Interest.sometimes = Interest.always) = False := by simp
+    simp only [hne', if_false] at hl
+    by_cases hr : (enabledPass m c st.reverse Bits.clean).2 = true
+    · simp only [hr, if_true, List.lookup_cons_self, Option.some.injEq] at hl
+      subst hl
+      rw [isDisabled_iff]
+      exact (p1 hr).2.2 fid f n hm
+    · have hr' : (enabledPass m c st.reverse Bits.clean).2 = false := by simpa using hr
+      simp only [hr', Bool.false_eq_true, if_false] at hl
+      rw [hnew] at hl; cases hl
+
+open TM.Lookup in
+/-- **C07.visible_iff_accepted** — a newly created span is visible to the lookups of a per-layer-filtered
+layer if and only if that layer's own filter accepted the span: not the other layers' filters, not
+their order, not the cache -/
+theorem visible_iff_accepted (st : Stack) (hne : st ≠ []) (hwf : WF st) (hh : HonestStack st)
+    (s : LState) (hs : s.t.bits = Bits.clean) (k : Nat) (m : Meta) (c : Ctx) (p : Par)
+    (hfresh : exists_ s k = false) (hcreated : exists_ (newSpan st s k m c p).1 k = true)
+    (fid : Nat) (f : FExpr) (n : Nat) (hm : Node.filt fid f n ∈ st) :
+    visible (newSpan st s k m c p).1 (some fid) k = enabledF f m c := by
+  have hnew : s.t.spans.lookup k = none := by
+    simpa [exists_] using hfresh
+  have hT : (newSpan st s k m c p).1.t = (emitSpan st s.t k m c).1 := by
+    simp only [newSpan]; split <;> rfl
+  simp only [exists_, hT] at hcreated
+  cases hl : (emitSpan st s.t k m c).1.spans.lookup k with
+  | none => simp [hl] at hcreated
+  | some map =>
+    have key := span_map_spec st hne hwf hh s.t hs k m c map hnew hl fid f n hm
+    simp only [visible, hT, hl]
+    cases he : enabledF f m c with
+    | true =>
+      cases hd : isDisabled map fid with
+      | false => rfl
+      | true => have := key.mp hd; rw [he] at this; cases this
+    | false => simp [key.mpr he]
+
+open TM.Lookup in
+/-- **C07.lookups_hide_rejected** — every span any lookup hands to a layer is one its filter accepted
+(`visible`): `Context::span`, `lookup_current`, every element of `span_scope` / `event_scope`,
+`SpanRef::parent`, `event_span` — for contextual, explicit and root parents -/
+theorem lookups_hide_rejected (s : LState) (ofid : Option Nat) :
+    (∀ k x, spanRef s ofid k = some x → visible s ofid x = true) ∧
+    (∀ x, lookupCurrent s ofid = some x → visible s ofid x = true ∧ x ∈ s.stack) ∧
+    (∀ k x, x ∈ scopeFrom s ofid k → visible s ofid x = true ∧ x ∈ ancestors s k) ∧
+    (∀ k x, parentRef s ofid k = some x → visible s ofid x = true) ∧
+    (∀ p x, eventSpan s ofid p = some x → visible s ofid x = true) ∧
+    (∀ p l x, eventScope s ofid p = some l → x ∈ l → visible s ofid x = true) := by
+  have hcur : ∀ x, lookupCurrent s ofid = some x → visible s ofid x = true ∧ x ∈ s.stack := by
+    intro x h
+    exact ⟨List.find?_some h, List.mem_of_find?_eq_some h⟩
+  have hspan : ∀ k x, spanRef s ofid k = some x → visible s ofid x = true := by
+    intro k x h
+    simp only [spanRef] at h
+    split at h
+    · cases h; assumption
+    · cases h
+  have hscope : ∀ k x, x ∈ scopeFrom s ofid k → visible s ofid x = true ∧ x ∈ ancestors s k := by
+    intro k x h
+    have := List.mem_filter.mp h
+    exact ⟨this.2, this.1⟩
+  have hev : ∀ p x, eventSpan s ofid p = some x → visible s ofid x = true := by
+    intro p x h
+    cases p with
+    | root => cases h
+    | contextual => exact (hcur x h).1
+    | explicit j =>
+      simp only [eventSpan] at h
+      split at h
+      · exact hspan j x h
+      · cases h
+  refine ⟨hspan, hcur, hscope, ?_, hev, ?_⟩
+  · intro k x h
+    exact List.find?_some h
+  · intro p l x h hx
+    simp only [eventScope, Option.map_eq_some_iff] at h
+    obtain ⟨y, _, rfl⟩ := h
+    exact (hscope y x hx).1
+
+open TM.Lookup in
+/-- **C07.scope_complete** — and nothing the filter accepted is hidden: a scope contains every visible span of
+the chain, in chain order (it is the chain, filtered) -/
+theorem scope_complete (s : LState) (ofid : Option Nat) (k x : Nat)
+    (hx : x ∈ ancestors s k) (hv : visible s ofid x = true) : x ∈ scopeFrom s ofid k :=
+  List.mem_filter.mpr ⟨hx, hv⟩
+
+open TM.Lookup in
+/-- non-vacuity: layer 2 (filter: ERROR only, filter id 0) is not shown the INFO span 0 — neither as the parent of the
+span it accepted nor in its scope — while the unfiltered layer 1 sees the whole chain -/
+example :
+    let st : Stack := [.plain 1, .filt 0 (.level 1) 2]
+    let info : Meta := { target := [], level := 3, isEvent := false, fields := [] }
+    let err : Meta := { target := [], level := 1, isEvent := false, fields := [] }
+    let s1 := (newSpan st LState.init 0 info 0 .root).1
+    let s2 := (newSpan st s1 1 err 0 (.explicit 0)).1
+    scopeFrom s2 none 1 = [1, 0] ∧ scopeFrom s2 (some 0) 1 = [1] ∧ parentRef s2 (some 0) 1 = none ∧
+    parentRef s2 none 1 = some 0 := by decide
 
 end C07
